@@ -27,11 +27,11 @@ def body(chk: check.Check):
     rt.setup(chk.seed)
     quick = chk.tier == 'quick'
     max_len = 4 if quick else 5
-    mod = paneldraws.module([7, 4, 12], max_len, [1, 3] if quick else [1, 2, 3], ['none', 'one', 'two', 'prod'], [True])
+    mod = paneldraws.module([7, 0, 12], max_len, [1, 3] if quick else [1, 2, 3], ['none', 'one', 'two', 'prod'], [True])
     res = tlc.run('PDGen', paneldraws.cfg(max_len), extra_modules={'PDGen': mod}, workers='auto', timeout=2400)
-    chk.add_tlc(f'PanelDraws: every id sequence of length <= {max_len} over ids 7, 4, 12', res)
+    chk.add_tlc(f'PanelDraws: every id sequence of length <= {max_len} over ids 7, 0, 12', res)
     recs = res.emitted
-    chk.rule = ('every sequence of individual ids (values 7, 4, 12: unsorted, non consecutive) of length <= 4 (quick) / 5 (thorough), '
+    chk.rule = ('every sequence of individual ids (values 7, 0, 12: unsorted, non consecutive, one of them 0) of length <= 4 (quick) / 5 (thorough), '
                 'contiguous or not, x numbers of draws x 4 row formulas (no draw, one draw variable, two of different types whose sorted '
                 'order differs from their order of appearance, product of draws); distinct = distinct (ids, R, formula)')
     results = par.pmap(paneldraws.replay, recs, chunk=10, timeout=900)
